@@ -4,11 +4,12 @@ CONFIG = {
     "bsv_cmd": "c17",
     "technique": "Lean 4 refinement proof (index = log filtered by component suffix) + differential correspondence with PathSearchIndex",
     "level_text": "Full functional refinement of the path-suffix index proved in Lean for every insert sequence and needle (C17_index_refines_suffix and corollaries); the model is tied to the real PathSearchIndex on every run by executing seeded insert/get sequences on both and comparing, and the real index is also compared with an independent suffix specification.",
-    "level_note": "Trusted: Lean kernel + 3 standard axioms; model<->code tie is sampling (generator distribution in evidence); interner modelled as string equality; demangling/namespace construction and the regex engine are environment (end-to-end leg on binaries: see evidence 'uncovered').",
+    "level_note": "Trusted: Lean kernel + 3 standard axioms; model<->code tie is sampling (generator distribution in evidence); interner modelled as string equality; demangling (rustc-demangle) and the regex engine are environment; the end-to-end leg runs `break <template>` on binaries built with legacy and v0 mangling against the functions listed by `nm -C`, feeding the model the components as the implementation computes them.",
     "runs": {"quick": [{"n": 6000}], "thorough": [{"n": 400000}]},
+    "shrinkable": True,
     "assumptions": [
         "interned symbols are equal iff the strings are equal (string-interner contract; sampled by the correspondence run)",
         "the regex engine of `symbol <regex>` is a parameter of the theorem",
     ],
-    "uncovered": [],
+    "uncovered": ["file templates end-to-end (the files index is covered by the pure leg with `/` paths)", "`symbol <regex>` end-to-end (the regex engine is a parameter)", "functions of shared libraries (C18)"],
 }
